@@ -5,7 +5,7 @@
    [outs] = the (member, value) pairs among them; [yields t] = the (key, value) pairs the group returned. *)
 From Coq Require Import List Arith Bool.
 Import ListNotations.
-Require Import ScanFull InstsFull ObligGroups C11Groups C02Join C02Groups GroupCap.
+Require Import ScanFull InstsFull ObligGroups C11Groups C02Join C02Groups GroupCap LiveGroups.
 
 Section C11.
   Variables (selective: bool) (cap0: nat) (ops: list op).
@@ -73,6 +73,32 @@ Print Assumptions C11_capacity_never_shrinks.
 Theorem C11_insert_total (w: world gst) a sc : dropped _ w = false -> Tg (cs _ w) (strip (tr _ w)) -> dropped _ (g_mutate w 0 a sc) = false.
 Proof. exact (insert_never_panics w a sc). Qed.
 Print Assumptions C11_insert_total.
+
+(* ---- "yields the output of each inserted future": every member does come out.  After ANY history whose inserted members are futures scripted
+        Pending* then Ready ([goodop false]: no panic, no End, no Item), the wake-driven executor of C01 (a round = invoke the most recent waker of
+        the member of every slot, then poll with the same task) empties the group within len * B rounds, B any bound on the remaining script
+        lengths; the world reached is again a history of the model, so C11_exactly_once, C11_discipline, C11_len ... hold of it: with len = 0,
+        C11_len says that every member ever inserted has been dropped - at its completion, i.e. after its output was returned (C11_exactly_once:
+        with the key its insert returned), or at its removal.  (Proofs/LiveGroups.v: fgroup_progress - one more output within B rounds, the count
+        len + outputs being invariant along polls and wake-ups - and induction on len.) *)
+Theorem C11_every_member_comes_out_under_wake_driven_executor cap0 ops B :
+  Forall (goodop false) ops ->
+  let rnd := rounds gst g_slots g_awaited g_member g_handle false false g_order g_pre_exit (fun _ => true) g_finish g_cleanup g_drop (fun _ => false) g_mutate in
+  let w := group_world true false cap0 ops in
+  finished _ w = false -> dropped _ w = false -> (forall m, length (nth m (scripts _ w) []) <= B) -> 1 <= B ->
+  exists R, R <= g_len (cs _ w) * B /\ let w' := rnd R w in
+    dropped _ w' = false /\ finished _ w' = false /\ g_len (cs _ w') = 0 /\
+    exists ops', Forall (goodop false) ops' /\ w' = group_world true false cap0 ops'.
+Proof. intros Hok rnd w Hf Hd HB HB1. exact (fgroup_drains cap0 B HB1 (g_len (cs _ w)) w (ex_intro _ ops (conj Hok eq_refl)) Hf Hd (le_n _) HB). Qed.
+Print Assumptions C11_every_member_comes_out_under_wake_driven_executor.
+Example C11_drain_witness :
+  let P := {| fires := []; answer := APend |} in let R v := {| fires := []; answer := AReady (ROk v) |} in
+  let ops := [OMut 0 0 [P; P; R 7]; OPollFresh; OMut 0 0 [P; R 9]] in
+  let rnd := rounds gst g_slots g_awaited g_member g_handle false false g_order g_pre_exit (fun _ => true) g_finish g_cleanup g_drop (fun _ => false) g_mutate in
+  let w := group_world true false 0 ops in
+  g_len (cs _ w) = 2 /\ dropped _ w = false /\ finished _ w = false /\
+  map (fun k => (g_len (cs _ (rnd k w)), yields (strip (tr _ (rnd k w))))) [1; 2; 3] = [(2, []); (1, [(0, 7)]); (0, [(0, 7); (1, 9)])].
+Proof. vm_compute. repeat split; reflexivity. Qed.
 
 Example C11_witness :
   let ops := [OMut 0 0 [{| fires := []; answer := APend |}; {| fires := []; answer := AReady (ROk 5) |}]; OMut 0 0 [{| fires := []; answer := AReady (ROk 6) |}];
